@@ -4,6 +4,7 @@ import SFV.Proofs.Bosonic
 import SFV.Proofs.GaussBackend
 import SFV.Proofs.BosonicRefine
 import SFV.Proofs.GaussRegister
+import SFV.Proofs.FockPositive
 
 /-!
 # C01 — all simulator back ends compute the same physics
@@ -171,6 +172,15 @@ sends position `2i + a` to mode `i`, quadrature `a` -/
 theorem bosonic_ordering {n r : Nat} (hn : 0 < n) (h : r < 2 * n) :
     Bos.toXp n (Bos.fromXp n r) = r ∧ Bos.fromXp n r % n = r / 2 ∧ Bos.fromXp n r < 2 * n :=
   ⟨Bos.toXp_fromXp hn h, Bos.fromXp_mode hn h, Bos.fromXp_lt h⟩
+
+/-- **pure and mixed representation give the same state, for every program of gates**: on the flattened register space, applying
+the (possibly truncated, non-unitary) gate matrices to the ket and forming `|ψ⟩⟨ψ|` equals applying `ρ ↦ UρU†` to `|ψ⟩⟨ψ|` —
+induction over the gate list; with `fock_blas_pure*` / `fock_blas_mixed*` (both representations compute the embedded operator) this is
+the "whether the Fock simulator is in its pure or mixed representation" clause -/
+theorem fock_pure_mixed_agree {n : Type} [Fintype n] [DecidableEq n] (Us : List (Matrix n n ℂ)) (ψ : n → ℂ) :
+    (let φ := Us.foldl (fun v U => U.mulVec v) ψ; Matrix.vecMulVec φ (star φ)) =
+      SFV.FockPos.runOps (Us.map SFV.FockPos.FOp.gate) (Matrix.vecMulVec ψ (star ψ)) :=
+  SFV.FockPos.pure_mixed_program Us ψ
 
 /-! ### non-vacuity -/
 
